@@ -594,6 +594,8 @@ func errClass(kind string, log string) (handlerErr string, feeErr string) {
 		return "noParent", feeErr
 	case obj.Code == 100710:
 		return "parentNotOwned", feeErr
+	case has("Buying price too high"):
+		return "priceTooHigh", feeErr
 	case has("Invalid Base Domain Price") || has("Less than per block fees") || has("Buying price too less") || has("No Err String"):
 		return "priceTooLow", feeErr
 	case has("domain doesn't exist") || has("domain not found") || has("Domain doesn't exist") || has("error getting domain:"):
@@ -1628,6 +1630,11 @@ func onsParamsFor(r *rng.R, seed uint64) onsParams {
 		p.Base = new(big.Int)
 		p.PerBlock = big.NewInt(1000000)
 	}
+	if r.Intn(8) == 0 {
+		// the smallest per-block fee governance admits: block counts near and beyond the int64 range
+		p.Base = big.NewInt(1000)
+		p.PerBlock = big.NewInt(1)
+	}
 	if r.Intn(2) == 0 {
 		// the last account can pay for one short-lived name and then runs dry (fee step failures)
 		p.Poor = new(big.Int).Add(p.Base, new(big.Int).Mul(p.PerBlock, big.NewInt(int64(1+r.Intn(4)))))
@@ -1777,6 +1784,18 @@ func RunOns(opt OnsOptions) (*Result, error) {
 				if r.Intn(60) == 0 {
 					o.Gas = 10
 					o.Note += ",low-gas"
+				}
+				// with a tiny per-block fee a payment can buy more blocks than an int64 holds: refused since f3370a9
+				if st.PerB.Cmp(big.NewInt(1000)) < 0 && (o.Kind == "create" || o.Kind == "renew" || o.Kind == "purchase") && r.Intn(5) == 0 {
+					huge := new(big.Int).Lsh(big.NewInt(1), 63)
+					switch r.Intn(4) {
+					case 0:
+						huge.Sub(huge, big.NewInt(int64(1+r.Intn(40)))) // just inside, unless the height pushes it over
+					case 1:
+						huge.Add(huge, big.NewInt(int64(r.Intn(3))))
+					}
+					o.Amt = new(big.Int).Add(o.Amt, new(big.Int).Mul(huge, st.PerB))
+					o.Note += ",block-count-near-2^63"
 				}
 				// variants that Validate (now part of DeliverTx) must refuse, and sends in another currency
 				switch x := r.Intn(100); {
